@@ -204,8 +204,8 @@ def gen(rng, tier):
         elif r < 0.79: out.append(gen_anytime(rng, "sarsop"))
         elif r < 0.85: out.append(gen_switch(rng, "sarsop"))
         elif r < 0.92: out.append(gen_anytime(rng, "gapmin"))
-        elif r < 0.945: out.append(gen_switch(rng, "gapmin"))
-        elif r < 0.955: out.append(gen_perseus_d1(rng))
+        elif r < 0.94: out.append(gen_switch(rng, "gapmin"))
+        elif r < 0.947: out.append(gen_perseus_d1(rng))
         elif r < 0.985: out.append(gen_reuse(rng))
         else: out.append(gen_cleanup(rng))
     return out
